@@ -19,6 +19,17 @@ MISSED_AT_FIRST = {
  "C03-1": "the allocation kept in a static cache differed first (allocation count) and ended the script before the second start; allocation-count differences no longer end a script; family env2 (caller changes cwd/env/limit between two starts) added",
  "C11-2": "the change lists /proc/self/fd with opendir/readdir, which the seam did not cover (infrastructure error); added to the seam; the interleaving family added to C11",
  "C20-1": "fcntl(F_SETFD) was not a yield point, so the pipe()/FD_CLOEXEC window was never interleaved with another thread's fork; divergences during interleaved calls were attributed to the inner call's property",
+ # round 3 (changes that need a history, a timing window, a fault at one point, an option combination or concurrency);
+ # "missed" = measured with the checks as they were before the round (commit 6c12a46 of /verif)
+ "C02-3": "an interrupted system call was not an event of the model; Interrupt (EINTR while a call is blocked) added to Core, simk and the stream/poll/stop/life/drain/run/destroy families and to the free-running mode",
+ "C02-4": "fork mode was not part of the stream family and nothing looked at the forked child's descriptor table; fork variant added to MC_Stream, the number of descriptors above 2 the forked child holds is now part of the observation (fchild)",
+ "C06-3": "a child that has ended while a descendant of it still holds the exit handle was not an environment behaviour; ChildExitG / GrandGone added (model, simk, fidelity scenario), Hup now means 'exit handle hung up'",
+ "C08-3": "the restart family (failed start, then a start with other options) was registered for C04 only; added to C08 and C15",
+ "C08-4": "needs an interrupted poll: Interrupt added (see C02-3)",
+ "C09-4": "the real-thread program never called reproc_poll; it now polls (single-source form, per-thread interests) and drains; the threads family was added to C09 and its divergences are attributed to C09 when they concern poll",
+ "C14-4": "needs an interrupted reap (Interrupt added) AND a look at the handle after a call whose contract is 'nothing changes': the exploration keeps one history per model state and continued from another one; every script now ends with a probe (zero-timeout poll on every started handle), and a descriptor-count difference no longer ends a script",
+ "C15-3": "restart family added to C15 (see C08-3)",
+ "C16-4": "a sink that re-enters the library was not modelled; MC_Nest added (a sink that drains another child before it looks at its own chunk)",
 }
 
 
